@@ -8,6 +8,8 @@ import (
 	"path/filepath"
 	"sort"
 	"strings"
+	"sync"
+	"syscall"
 	"time"
 	"unicode/utf8"
 
@@ -621,6 +623,9 @@ func runC17(c *Ctx) {
 
 	// ---- stream "balance": the real binary, text against --csv of the same journal
 	runC17Balance(c, bt)
+
+	// ---- stream "paced": large reports through consumers with different pacing
+	runC17Paced(c, bt)
 }
 
 // ---------------------------------------------------------------- subprocess: knut balance text vs csv
@@ -740,6 +745,63 @@ func c17CsvFields(line string) []string {
 	return append(fs, cur.String())
 }
 
+// c17ReportTable reconstructs the table of a balance report from its CSV records (exact amounts) and the row kinds / indents
+// of its text. A nil table comes with the statement that failed.
+func c17ReportTable(outT, outC string, k bool, digits int) (*c17table, int, int, string) {
+	lines := strings.Split(outT, "\n")
+	csvLines := strings.Split(strings.TrimRight(outC, "\n"), "\n")
+	var recs [][]string
+	for _, l := range csvLines {
+		recs = append(recs, c17CsvFields(l))
+	}
+	if len(recs) == 0 || len(lines) < 3 {
+		return nil, 0, 0, "balance output has a header"
+	}
+	w := len(recs[0])
+	tb := &c17table{Groups: []int{1, 1, w - 2}, Thousands: k, Digits: digits}
+	ri := 0
+	okShape := true
+	for _, l := range lines[:len(lines)-2] {
+		switch c17LineKind(l) {
+		case "S":
+			tb.Ops = append(tb.Ops, c17op{Kind: "S"})
+		case "E":
+			tb.Ops = append(tb.Ops, c17op{Kind: "E"})
+		default:
+			if ri >= len(recs) || len(recs[ri]) != w {
+				okShape = false
+				break
+			}
+			rec := recs[ri]
+			tb.Ops = append(tb.Ops, c17op{Kind: "R"})
+			for j, f := range rec {
+				switch {
+				case ri == 0:
+					tb.Ops = append(tb.Ops, c17op{Kind: "t", Align: 2, Text: f})
+				case f == "":
+					tb.Ops = append(tb.Ops, c17op{Kind: "e"})
+				case j == 0:
+					body := strings.TrimPrefix(l, "| ")
+					ind := len(body) - len(strings.TrimLeft(body, " "))
+					tb.Ops = append(tb.Ops, c17op{Kind: "i", Indent: ind, Text: f})
+				case j == 1:
+					tb.Ops = append(tb.Ops, c17op{Kind: "t", Align: 0, Text: f})
+				default:
+					if _, err := decimal.NewFromString(f); err != nil {
+						okShape = false
+					}
+					tb.Ops = append(tb.Ops, c17op{Kind: "d", Dec: f})
+				}
+			}
+			ri++
+		}
+	}
+	if !okShape || ri != len(recs) {
+		return nil, 0, 0, "csv records correspond one-to-one to the non-blank text rows"
+	}
+	return tb, len(recs), w, ""
+}
+
 func runC17Balance(c *Ctx, bt *Batch) {
 	if c.KnutBin == "" {
 		c.Notes = append(c.Notes, "no knut binary: balance stream skipped")
@@ -777,64 +839,15 @@ func runC17Balance(c *Ctx, bt *Batch) {
 		}
 		c.Evals++
 		ran++
-		// reconstruct the table from the CSV records (exact amounts) and the row kinds / indents of the text
-		lines := strings.Split(outT, "\n")
-		csvLines := strings.Split(strings.TrimRight(outC, "\n"), "\n")
-		var recs [][]string
-		for _, l := range csvLines {
-			recs = append(recs, c17CsvFields(l))
-		}
-		if len(recs) == 0 || len(lines) < 3 {
-			c.Monitor("balance", i, "balance output has a header", in, false, outT+"\n"+outC)
-			continue
-		}
-		w := len(recs[0])
-		tb := &c17table{Groups: []int{1, 1, w - 2}, Thousands: k, Digits: digits}
-		ri := 0
-		okShape := true
-		for _, l := range lines[:len(lines)-2] {
-			switch c17LineKind(l) {
-			case "S":
-				tb.Ops = append(tb.Ops, c17op{Kind: "S"})
-			case "E":
-				tb.Ops = append(tb.Ops, c17op{Kind: "E"})
-			default:
-				if ri >= len(recs) || len(recs[ri]) != w {
-					okShape = false
-					break
-				}
-				rec := recs[ri]
-				tb.Ops = append(tb.Ops, c17op{Kind: "R"})
-				for j, f := range rec {
-					switch {
-					case ri == 0:
-						tb.Ops = append(tb.Ops, c17op{Kind: "t", Align: 2, Text: f})
-					case f == "":
-						tb.Ops = append(tb.Ops, c17op{Kind: "e"})
-					case j == 0:
-						body := strings.TrimPrefix(l, "| ")
-						ind := len(body) - len(strings.TrimLeft(body, " "))
-						tb.Ops = append(tb.Ops, c17op{Kind: "i", Indent: ind, Text: f})
-					case j == 1:
-						tb.Ops = append(tb.Ops, c17op{Kind: "t", Align: 0, Text: f})
-					default:
-						if _, err := decimal.NewFromString(f); err != nil {
-							okShape = false
-						}
-						tb.Ops = append(tb.Ops, c17op{Kind: "d", Dec: f})
-					}
-				}
-				ri++
-			}
-		}
-		if !okShape || ri != len(recs) {
-			c.Monitor("balance", i, "csv records correspond one-to-one to the non-blank text rows", in, false, outT+"\n"+outC)
+		tb, nrecs, w, why := c17ReportTable(outT, outC, k, digits)
+		if tb == nil {
+			c.Monitor("balance", i, why, in, false, outT+"\n"+outC)
 			continue
 		}
 		in["table"] = tb.input()
 		head := []string{c17BoolField(k), itoa(digits), tb.groupsField()}
 		ops := tb.fields()
-		c.Class(fmt.Sprintf("balance/w%d/k%v/d%s/rows%s", w, k, c17DigitsClass(digits), bucket(len(recs))))
+		c.Class(fmt.Sprintf("balance/w%d/k%v/d%s/rows%s", w, k, c17DigitsClass(digits), bucket(nrecs)))
 		// the real text is what the model renders for the table the CSV describes …
 		bt.Add(func(model string) { c.Compare("balance", i, "c17text(balance)", in, "ok "+Hex(outT), model) },
 			append(append([]string{"c17text"}, head...), ops...)...)
@@ -855,4 +868,517 @@ func runC17Balance(c *Ctx, bt *Batch) {
 	}
 	bt.Flush()
 	c.Extra["balance_runs"] = ran
+}
+
+// ---------------------------------------------------------------- subprocess: large reports through paced consumers
+
+// c17pace describes how the consumer at the other end of knut's standard output takes the report.
+type c17pace struct {
+	Kind    string `json:"kind"`               // file | late | stall | slow | tiny | burst
+	CSV     bool   `json:"csv,omitempty"`      // the --csv rendering is read this way (else the text rendering)
+	Pipe    int    `json:"pipe,omitempty"`     // capacity of the pipe in bytes (0: the system's default, 64 KiB)
+	StallAt int    `json:"stall_at"`           // the consumer stops reading once after this many bytes (0: before the first read) …
+	Stall   int    `json:"stall_ms,omitempty"` // … for this long
+	Chunk   int    `json:"chunk"`              // size of one read
+	Pause   int    `json:"pause_ms,omitempty"` // pause after every `Every`-th read …
+	Every   int    `json:"every,omitempty"`
+	Budget  int    `json:"budget_ms,omitempty"` // … until the pauses add up to this much
+	Reads   int    `json:"reads,omitempty"`     // after this many reads the rest is drained with large reads (0: never)
+}
+
+const c17SetPipeSize = 1031 // F_SETPIPE_SZ (Linux)
+
+var c17pipeSizes = []int{0, 0, 4096, 4096, 8192, 16384, 65536, 1 << 20}
+
+// genC17Pace draws a consumer schedule of the given kind; `size` is the length of the eagerly read output.
+func genC17Pace(r *RNG, kind string, size int, long int) c17pace {
+	p := c17pace{Kind: kind, Pipe: Pick(r, c17pipeSizes), Chunk: 65536}
+	stall := func() int {
+		switch r.Intn(8) {
+		case 0, 1:
+			return r.Range(5, 99) // short pauses
+		case 2:
+			return r.Range(500, long) // long ones (a consumer that is busy for seconds)
+		}
+		return r.Range(110, 480)
+	}
+	switch kind {
+	case "file":
+		p.Pipe = 0
+	case "late": // a pager that starts reading late
+		p.Stall = stall()
+		p.Chunk = Pick(r, []int{4096, 65536, 1 << 20})
+	case "stall": // a consumer that stops in the middle of the report
+		p.StallAt = 1 + r.Intn(size+1)
+		if r.Chance(1, 3) { // just around the buffer sizes in play
+			p.StallAt = Pick(r, []int{4096, 8192, 65536, 65536 + 4096}) + r.Range(-2, 2)
+		}
+		p.Stall = stall()
+		p.Chunk = Pick(r, []int{512, 4096, 65536})
+	case "slow": // chunked reads with a pause after each
+		p.Chunk = Pick(r, []int{256, 512, 1024, 4096, 8192, 16384})
+		p.Pause = r.Range(3, 140)
+		p.Every = 1
+		p.Budget = r.Range(300, 900)
+		if r.Chance(1, 3) {
+			p.Stall = r.Range(10, 200)
+		}
+	case "tiny": // very small reads
+		p.Chunk = Pick(r, []int{1, 1, 2, 3, 7, 16, 61})
+		p.Reads = r.Range(2000, 60000)
+		if r.Chance(1, 2) {
+			p.Pause = r.Range(1, 30)
+			p.Every = Pick(r, []int{64, 256, 1024, 4096})
+			p.Budget = r.Range(200, 700)
+		}
+		if r.Chance(1, 3) {
+			p.Stall = stall()
+		}
+	case "burst": // bursts of reads separated by long pauses
+		p.Chunk = Pick(r, []int{1024, 4096, 16384, 65536})
+		p.Pause = r.Range(60, 260)
+		p.Every = r.Range(1, 8)
+		p.Budget = r.Range(400, 1000)
+	}
+	return p
+}
+
+func c17Consume(f *os.File, p c17pace) []byte {
+	var out []byte
+	nap := func(ms int) { time.Sleep(time.Duration(ms) * time.Millisecond) }
+	stalled := false
+	if p.StallAt == 0 && p.Stall > 0 {
+		nap(p.Stall)
+		stalled = true
+	}
+	chunk := p.Chunk
+	if chunk <= 0 {
+		chunk = 65536
+	}
+	buf := make([]byte, chunk)
+	reads, paused := 0, 0
+	for {
+		n, err := f.Read(buf)
+		out = append(out, buf[:n]...)
+		if err != nil {
+			return out
+		}
+		reads++
+		if !stalled && p.Stall > 0 && len(out) >= p.StallAt {
+			stalled = true
+			nap(p.Stall)
+		}
+		if p.Pause > 0 && p.Every > 0 && reads%p.Every == 0 && paused+p.Pause <= p.Budget {
+			paused += p.Pause
+			nap(p.Pause)
+		}
+		if p.Reads > 0 && reads == p.Reads && len(buf) < 65536 {
+			buf = make([]byte, 65536)
+		}
+	}
+}
+
+// c17RunPaced runs knut with its standard output connected to the consumer `p` describes.
+func c17RunPaced(bin string, timeout time.Duration, p c17pace, scratch string, args ...string) (string, string, error) {
+	cmd := exec.Command(bin, args...)
+	var se bytes.Buffer
+	cmd.Stderr = &se
+	wait := func() error {
+		done := make(chan error, 1)
+		go func() { done <- cmd.Wait() }()
+		select {
+		case err := <-done:
+			return err
+		case <-time.After(timeout):
+			cmd.Process.Kill()
+			<-done
+			return fmt.Errorf("timeout")
+		}
+	}
+	if p.Kind == "file" {
+		f, err := os.Create(scratch)
+		if err != nil {
+			return "", "", err
+		}
+		defer os.Remove(scratch)
+		cmd.Stdout = f
+		if err := cmd.Start(); err != nil {
+			f.Close()
+			return "", "", err
+		}
+		err = wait()
+		f.Close()
+		b, _ := os.ReadFile(scratch)
+		return string(b), se.String(), err
+	}
+	pr, pw, err := os.Pipe()
+	if err != nil {
+		return "", "", err
+	}
+	if p.Pipe > 0 {
+		syscall.Syscall(syscall.SYS_FCNTL, pw.Fd(), c17SetPipeSize, uintptr(p.Pipe))
+	}
+	cmd.Stdout = pw
+	if err := cmd.Start(); err != nil {
+		pr.Close()
+		pw.Close()
+		return "", "", err
+	}
+	pw.Close()
+	outc := make(chan []byte, 1)
+	go func() { outc <- c17Consume(pr, p) }()
+	err = wait()
+	out := <-outc
+	pr.Close()
+	return string(out), se.String(), err
+}
+
+var c17bigSegs = []string{"Bank", "Konto", "Depot", "Bär", "Zürich", "Miete", "Food", "Reise", "日本", "口座", "Ελλάδα", "счёт", "Portfolio", "Cash", "Salary", "Tax", "Übrige", "Naïve", "X", "Versicherungspolicen"}
+
+// genC17BigJournal generates a journal with `leaves` booked accounts (one report row or more each) and the flags of a balance report.
+func genC17BigJournal(r *RNG, leaves int) (string, []string, int, bool) {
+	tops := []string{"Assets", "Liabilities", "Expenses", "Income"}
+	comms := []string{"CHF", "USD", "AAPL", "ÖL"}
+	digits := Pick(r, []int{0, 0, 2, 2, 1, 3, 4, 8, -1, -2})
+	k := r.Chance(2, 5)
+	ncomm := r.Range(1, 3)
+	perGroup := r.Range(3, 40)
+	depth := r.Range(0, 3) // further levels between the group and the leaf
+	pad := Pick(r, []int{1, 3, 4, 6})
+	accs := make([]string, 0, leaves)
+	for i := 0; i < leaves; i++ {
+		g := i / perGroup
+		a := tops[g%len(tops)] + ":" + c17bigSegs[(g/len(tops))%len(c17bigSegs)] + itoa(g)
+		for d := 0; d < depth; d++ {
+			if (i+d)%3 != 0 {
+				a += ":" + c17bigSegs[(i/3+7*d)%len(c17bigSegs)]
+			}
+		}
+		a += ":" + Pick(r, c17bigSegs) + fmt.Sprintf("%0*d", pad, i)
+		accs = append(accs, a)
+	}
+	var b strings.Builder
+	b.WriteString("2019-12-31 open Equity:Equity\n")
+	for _, a := range accs {
+		fmt.Fprintf(&b, "2019-12-31 open %s\n", a)
+	}
+	b.WriteString("\n")
+	for i, a := range accs {
+		nt := 1
+		if r.Chance(1, 6) {
+			nt = r.Range(2, 3)
+		}
+		for t := 0; t < nt; t++ {
+			d := time.Date(2020, time.Month(r.Range(1, 12)), r.Range(1, 28), 0, 0, 0, 0, time.UTC)
+			var lit string
+			if r.Chance(1, 3) {
+				lit, _ = c17decimal(r, digits, k)
+			} else {
+				lit = fmt.Sprintf("%d.%02d", r.Intn(2000000), r.Intn(100))
+				if r.Chance(1, 4) {
+					lit = "-" + lit
+				}
+			}
+			lit = c17NormDec(lit)
+			other := "Equity:Equity"
+			if r.Chance(1, 8) {
+				other = accs[r.Intn(len(accs))]
+			}
+			if other == a {
+				continue
+			}
+			fmt.Fprintf(&b, "%s \"t%d\"\n%s %s %s %s\n\n", d.Format("2006-01-02"), i, other, a, lit, comms[r.Intn(ncomm)])
+		}
+	}
+	args := []string{"--color=false", "-a", "--from", "2020-01-01", "--to", "2020-12-31", "--digits", itoa(digits)}
+	if k {
+		args = append(args, "-k")
+	}
+	switch r.Intn(6) {
+	case 0:
+		args = append(args, "--months")
+	case 1:
+		args = append(args, "--quarters")
+	case 2:
+		args = append(args, "--years")
+	}
+	if r.Chance(1, 4) {
+		args = append(args, "--diff")
+	}
+	if r.Chance(1, 4) {
+		args = append(args, "--close=false")
+	}
+	if r.Chance(1, 8) {
+		args = append(args, "-m", Pick(r, []string{"3", "4"}))
+	}
+	if r.Chance(1, 4) {
+		for _, c := range comms[1:ncomm] {
+			fmt.Fprintf(&b, "2019-12-31 price %s %d.%02d CHF\n", c, r.Range(0, 300), r.Range(1, 99))
+		}
+		args = append(args, "-v", "CHF", "-s", Pick(r, []string{"^Assets", "Expenses", "Konto", "Liabilities|Income", "Nothing", "."}))
+	}
+	return b.String(), args, digits, k
+}
+
+func c17SizeClass(n int) string {
+	switch {
+	case n <= 4096:
+		return "<=4K"
+	case n <= 8192:
+		return "4-8K"
+	case n <= 65536:
+		return "8-64K"
+	case n <= 65536+4096:
+		return "64-68K"
+	case n <= 262144:
+		return "68-256K"
+	}
+	return ">256K"
+}
+
+type c17pacedRun struct {
+	pace     c17pace
+	out, err string
+	runErr   error
+}
+
+type c17pacedCase struct {
+	index      int
+	in         map[string]any
+	args       []string
+	path       string
+	digits     int
+	k          bool
+	outT, outC string
+	tb         *c17table
+	runs       []*c17pacedRun
+}
+
+// runC17Paced is the stream "paced": reports far larger than the buffers between the renderer and the consumer (bufio's 4 KiB,
+// the pipe's capacity) are read by consumers that start late, stop in the middle, read slowly, in tiny pieces or in bursts, or are a
+// file. What arrives must be the model's rendering of the table the CSV describes and satisfy the Lean predicates (rectangular,
+// aligned, every slot shows its cell with the CSV amount), whatever the pacing; the CSV read through a paced consumer must satisfy csvTextOK.
+func runC17Paced(c *Ctx, bt *Batch) {
+	if c.KnutBin == "" {
+		return
+	}
+	n := c.N(10, 120)
+	npace := c.N(3, 5)
+	dir := filepath.Join(c.WorkDir, "c17p")
+	os.MkdirAll(dir, 0o755)
+	const watchdog = 90 * time.Second
+	kinds := []string{"late", "stall", "slow", "tiny", "burst", "late", "stall", "file"}
+	var cases []*c17pacedCase
+	t0 := time.Now()
+	// phase 1: journals, eagerly read text and CSV
+	for i := 0; i < n; i++ {
+		if !c.Want("paced", i) {
+			continue
+		}
+		r := c.Rng("paced", i)
+		var leaves int
+		switch r.Intn(5) {
+		case 0:
+			leaves = r.Range(30, 150) // a few buffers
+		case 1, 2:
+			leaves = r.Range(150, 800)
+		default:
+			leaves = r.Range(800, c.N(2000, 6000))
+		}
+		text, args, digits, k := genC17BigJournal(r, leaves)
+		if c.Replay && c.ReplayInput != nil {
+			if j, ok := c.ReplayInput["journal"].(string); ok {
+				text = j
+			}
+		}
+		pc := &c17pacedCase{index: i, args: args, digits: digits, k: k, path: filepath.Join(dir, fmt.Sprintf("j%d.knut", i))}
+		if err := os.WriteFile(pc.path, []byte(text), 0o644); err != nil {
+			fatalf("%v", err)
+		}
+		pc.in = map[string]any{"journal": text, "args": args, "leaves": leaves}
+		var errT, errC string
+		var e1, e2 error
+		pc.outT, errT, e1 = c17RunKnut(c.KnutBin, watchdog, append(append([]string{"balance"}, args...), pc.path)...)
+		pc.outC, errC, e2 = c17RunKnut(c.KnutBin, watchdog, append(append([]string{"balance", "--csv"}, args...), pc.path)...)
+		if e1 != nil || e2 != nil {
+			c.Tag("paced-rejected")
+			c.Monitor("paced", i, "text and csv runs agree on failure", pc.in, (e1 != nil) == (e2 != nil), errT+" / "+errC)
+			os.Remove(pc.path)
+			continue
+		}
+		c.Evals++
+		var why string
+		pc.tb, _, _, why = c17ReportTable(pc.outT, pc.outC, k, digits)
+		if pc.tb == nil {
+			c.Monitor("paced", i, why, pc.in, false, clip(pc.outT)+"\n"+clip(pc.outC))
+		}
+		// the schedules: distinct kinds, one of them reads the CSV
+		start := r.Intn(len(kinds))
+		for j := 0; j < npace; j++ {
+			p := genC17Pace(r, kinds[(start+j)%len(kinds)], len(pc.outT), c.N(1200, 2600))
+			pc.runs = append(pc.runs, &c17pacedRun{pace: p})
+		}
+		pcsv := genC17Pace(r, Pick(r, []string{"late", "stall", "slow", "burst"}), len(pc.outC), c.N(1200, 2600))
+		pcsv.CSV = true
+		pc.runs = append(pc.runs, &c17pacedRun{pace: pcsv})
+		cases = append(cases, pc)
+	}
+	t1 := time.Now()
+	// phase 2: the paced runs (they mostly sleep: a few at a time)
+	type job struct {
+		pc *c17pacedCase
+		j  int
+	}
+	jobs := make(chan job)
+	var wg sync.WaitGroup
+	for w := 0; w < 6; w++ {
+		wg.Add(1)
+		go func() {
+			defer wg.Done()
+			for jb := range jobs {
+				run := jb.pc.runs[jb.j]
+				full := []string{"balance"}
+				if run.pace.CSV {
+					full = append(full, "--csv")
+				}
+				full = append(append(full, jb.pc.args...), jb.pc.path)
+				run.out, run.err, run.runErr = c17RunPaced(c.KnutBin, watchdog, run.pace, fmt.Sprintf("%s.out%d", jb.pc.path, jb.j), full...)
+			}
+		}()
+	}
+	for _, pc := range cases {
+		for j := range pc.runs {
+			jobs <- job{pc, j}
+		}
+	}
+	close(jobs)
+	wg.Wait()
+	t2 := time.Now()
+	// phase 3: verdicts, in case order
+	nruns, blocked := 0, 0
+	for _, pc := range cases {
+		os.Remove(pc.path)
+		pc := pc
+		i := pc.index
+		tb := pc.tb
+		var head, ops []string
+		if tb != nil {
+			head = []string{c17BoolField(pc.k), itoa(pc.digits), tb.groupsField()}
+			ops = tb.fields()
+			c.Class(fmt.Sprintf("paced/w%d/k%v/d%s/text%s", tb.width(), pc.k, c17DigitsClass(pc.digits), c17SizeClass(len(pc.outT))))
+		}
+		inOf := func(p *c17pace) map[string]any {
+			m := map[string]any{}
+			for k, v := range pc.in {
+				m[k] = v
+			}
+			if p != nil {
+				m["pace"] = *p
+			}
+			return m
+		}
+		var same, sameCSV []*c17pacedRun // runs whose bytes are those of the eager run: one evaluation of the predicate covers them
+		for _, run := range pc.runs {
+			run := run
+			nruns++
+			p := run.pace
+			if run.runErr != nil && run.runErr.Error() == "timeout" {
+				c.Tag("paced-timeout")
+				c.Notes = append(c.Notes, fmt.Sprintf("paced %d: watchdog expired for consumer %+v (not evaluated)", i, p))
+				continue
+			}
+			if run.runErr != nil {
+				c.Tag("paced-exit-nonzero")
+			}
+			capacity := p.Pipe
+			if capacity == 0 {
+				capacity = 65536
+			}
+			ref := pc.outT
+			if p.CSV {
+				ref = pc.outC
+			}
+			if p.Kind != "file" && len(ref) > capacity+4096 && (p.Stall >= 100 || p.Pause >= 100) {
+				blocked++
+			}
+			c.Class(fmt.Sprintf("pace/%s/csv%v/pipe%d/size%s", p.Kind, p.CSV, p.Pipe, c17SizeClass(len(ref))))
+			if tb == nil {
+				continue
+			}
+			switch {
+			case p.CSV && run.out == pc.outC:
+				sameCSV = append(sameCSV, run)
+			case p.CSV:
+				bt.Add(func(mon string) {
+					c.Monitor("paced", i, "csvTextOK (paced consumer)", inOf(&p), mon == "ok", mon+"\n"+c17FirstDiff(pc.outC, run.out))
+				}, append([]string{"c17csvmon", tb.groupsField(), Hex(run.out)}, ops...)...)
+			case run.out == pc.outT:
+				same = append(same, run)
+			default:
+				bt.Add(func(mon string) {
+					c.Monitor("paced", i, "textOK(csv amounts) (paced consumer)", inOf(&p), mon == "ok", mon+"\n"+c17FirstDiff(pc.outT, run.out))
+				}, append(append([]string{"c17mon"}, append(head, Hex(run.out))...), ops...)...)
+			}
+		}
+		if tb == nil {
+			continue
+		}
+		// the text is what the model renders for the table the CSV describes, for every consumer …
+		bt.Add(func(model string) {
+			c.Compare("paced", i, "c17text(balance)", inOf(nil), "ok "+Hex(pc.outT), model)
+			for _, run := range pc.runs {
+				if !run.pace.CSV && (run.runErr == nil || run.runErr.Error() != "timeout") {
+					p := run.pace
+					c.Compare("paced", i, "c17text(balance, paced consumer)", inOf(&p), "ok "+Hex(run.out), model)
+				}
+			}
+		}, append(append([]string{"c17text"}, head...), ops...)...)
+		// … and satisfies the property predicate with the CSV amounts as the underlying amounts
+		bt.Add(func(mon string) {
+			switch {
+			case mon == "ok":
+				c.Monitor("paced", i, "textOK(csv amounts)", inOf(nil), true, "")
+				for range same {
+					c.Monitor("paced", i, "textOK(csv amounts) (paced consumer)", nil, true, "")
+				}
+			case strings.HasPrefix(mon, "inexact") && tb.knownDoubleRounding():
+				c.MonitorKnown("paced", i, "textOK(exact quotient)", inOf(nil), mon, "thousands-with-more-than-13-decimals")
+			default:
+				c.Monitor("paced", i, "textOK(csv amounts)", inOf(nil), false, mon+"\n"+clip(pc.outT))
+			}
+		}, append(append([]string{"c17mon"}, append(head, Hex(pc.outT))...), ops...)...)
+		bt.Add(func(mon string) {
+			if c.Monitor("paced", i, "csvTextOK", inOf(nil), mon == "ok", mon+"\n"+clip(pc.outC)) {
+				for range sameCSV {
+					c.Monitor("paced", i, "csvTextOK (paced consumer)", nil, true, "")
+				}
+			}
+		}, append([]string{"c17csvmon", tb.groupsField(), Hex(pc.outC)}, ops...)...)
+		if i < 1 {
+			c.Sample(map[string]any{"stream": "paced", "args": pc.args, "text_bytes": len(pc.outT), "csv_bytes": len(pc.outC), "paces": pc.runs[0].pace})
+		}
+		bt.Flush()
+	}
+	c.Extra["paced_runs"] = nruns
+	c.Extra["paced_wall_s"] = fmt.Sprintf("eager runs %.1f, paced runs %.1f, model and predicates %.1f", t1.Sub(t0).Seconds(), t2.Sub(t1).Seconds(), time.Since(t2).Seconds())
+	c.Extra["paced_runs_blocking_100ms"] = blocked
+}
+
+// c17FirstDiff describes where two outputs part.
+func c17FirstDiff(want, got string) string {
+	n := 0
+	for n < len(want) && n < len(got) && want[n] == got[n] {
+		n++
+	}
+	ctx := func(s string) string {
+		lo, hi := n-200, n+300
+		if lo < 0 {
+			lo = 0
+		}
+		if hi > len(s) {
+			hi = len(s)
+		}
+		return s[lo:hi]
+	}
+	return fmt.Sprintf("eagerly read output: %d bytes, this consumer: %d bytes, first difference at byte %d\n--- eager\n%s\n--- this consumer\n%s", len(want), len(got), n, ctx(want), ctx(got))
 }
